@@ -72,4 +72,54 @@ example : enc [] [97, 32, 32, 32, 98, 9, 10, 32, 99]
     = [.text [97, 32], .sp 2, .text [98], .tab, .lb, .text [32, 99]] := by
   simp [enc, flush, SP, TAB, LF]
 
+
+theorem mergeText_head (r : List TNode) (h : ∀ b r', r ≠ .text b :: r') :
+    ∀ b r', mergeText r ≠ .text b :: r' := by
+  intro b r'
+  cases r with
+  | nil => simp [mergeText]
+  | cons y t =>
+    cases y with
+    | text s => exact absurd rfl (h s t)
+    | elem ks => simp [mergeText]
+    | _ => simp [mergeText]
+
+/-- **C17 (a second save/load changes nothing more)**: merging is idempotent on EVERY child list, not only on
+    inserted ones - so `roundtrip_after_merge` holds after any number of save/load cycles (`roundtrip_after_merges`). -/
+theorem mergeText_idem (l : List TNode) : mergeText (mergeText l) = mergeText l := by
+  fun_induction mergeText l with
+  | case1 a b r ih => exact ih
+  | case2 ks r ih => simp [mergeText, ih]
+  | case3 x r h1 h2 ih =>
+    cases x with
+    | text a =>
+      have hr : ∀ b r', r ≠ .text b :: r' := by
+        intro b r' e; exact h1 a b r' rfl e
+      have := mergeText_head r hr
+      cases hm : mergeText r with
+      | nil => simp [mergeText]
+      | cons y t =>
+        rw [hm] at ih this
+        cases y with
+        | text s => exact absurd rfl (this s t)
+        | _ => simp_all [mergeText]
+    | elem ks => exact absurd rfl (h2 ks)
+    | _ => simp [mergeText, ih]
+  | case4 => simp [mergeText]
+
+/-- `n` save/load cycles, as far as `extractText` can tell -/
+def cycles : Nat → List TNode → List TNode
+  | 0, l => l
+  | n + 1, l => mergeText (cycles n l)
+
+theorem cycles_succ (n : Nat) (l : List TNode) : cycles (n + 1) l = mergeText l := by
+  induction n with
+  | zero => rfl
+  | succ k ih => rw [cycles, ih, mergeText_idem]
+
+/-- any number of save/load cycles -/
+theorem roundtrip_after_merges (kids : List TNode) (s : Str) (n : Nat) :
+    extractL (cycles (n + 1) (kids ++ enc [] s)) = extractL kids ++ s := by
+  rw [cycles_succ]; exact roundtrip_after_merge kids s
+
 end OdfModel.Props.C17Merge
